@@ -10,7 +10,8 @@
     Invariants Consistent (content = State(i), i in the window), Complete, CutIsError (cut or
     failed production => error), GateReleased; one negative control per mechanism switch
     (GateDuringFileCopy, SnapshotBeforeCopy, DumpInOneReadTxn, BackupSingleStep, StreamEndDetected,
-    AbortAfterPartial, EndMarkerOnlyOnSuccess, CopyErrorReturned).
+    AbortAfterPartial, EndMarkerOnlyOnSuccess, CopyErrorReturned, DumpRowErrorsReturned: the query
+    that reads a table's rows reports an error => the dump fails, it does not go on without the rows).
 (C) a live 3-node cluster: writer goroutines run the transfers over HTTP (each acknowledged with
     its raft index) while backups are requested in every format / flag combination
     (fmt=binary|sql|delete, vacuum, compress) from the leader, through a follower (forwarded) and
@@ -29,7 +30,15 @@
 (P) the node producing the backup fails after streaming began (fault points: the source of the
     file copy in Store.Backup is closed right before the copy; db.Dump fails at the 1st / 2nd / 3rd
     table), every format x compress x (leader itself | through a follower), requested over HTTP;
-    a response with status 200 that is read to its end without error violates CutIsError."""
+    a response with status 200 that is read to its end without error violates CutIsError.
+(S) identifier shapes: the workload's tables exist a second time under table names and column names
+    of every shape (plain, keyword that needs quoting, with a space, with an embedded double quote,
+    with an embedded single quote, unicode; quick: every shape against plain and both alike,
+    thorough: every pair), a few acknowledged transfers run on them, backups are taken in the
+    format / compress / via combinations (quick: SQL dump in all six, the file formats in two;
+    thorough: all 24), restored, projected under the same names and judged like those of (C):
+    restorable, Complete (every object, every table, at least the rows of the first state),
+    equal to a state of the history, of the window."""
 import json, os, shutil, threading, vlib
 LEVEL = "model_checking"
 TECHNIQUE = "TLA+ spec of the backup procedures and the inter-node stream, TLC exhaustive + negative controls; live-cluster backups under a sum-preserving write load and stream cuts validated by a TLA+ trace spec"
@@ -37,7 +46,8 @@ TECHNIQUE = "TLA+ spec of the backup procedures and the inter-node stream, TLC e
 NEG = (("GateDuringFileCopy", "Consistent"), ("SnapshotBeforeCopy", "Consistent"), ("DumpInOneReadTxn", "Consistent"),
        ("BackupSingleStep", "Consistent"), ("StreamEndDetected", "CutIsError"), ("AbortAfterPartial", "CutIsError"),
        ("EndMarkerOnlyOnSuccess", "CutIsError"), ("EndMarkerOnlyOnSuccess_Complete", "Complete"),
-       ("CopyErrorReturned", "CutIsError"), ("CopyErrorReturned_Complete", "Complete"))
+       ("CopyErrorReturned", "CutIsError"), ("CopyErrorReturned_Complete", "Complete"),
+       ("DumpRowErrorsReturned", "Complete"))
 
 
 def b(x):
@@ -70,7 +80,7 @@ def run(ctx):
         tr = os.path.join(ctx.scratch, "backup.ndjson")
         p = twice(ctx.run_harness, ["backup-trace", "-out", tr, "-dir", ctx.sub("bk"), "-rounds", str(ctx.pick(40, 200)),
                              "-secs", str(ctx.pick(45, 330)), "-wps", str(ctx.pick(60, 40)), "-writers", "6",
-                             "-cuts", str(ctx.pick(40, 0)),
+                             "-cuts", str(ctx.pick(40, 0)), "-ident", ctx.pick("star", "full"),
                              # bounds the whole inter-node transfer of a forwarded backup: a client that misses the end of
                              # the stream then costs seconds per request, not the default 30 s
                              "-fwdtimeout", os.environ.get("VERIF_C21_FWDTIMEOUT", "8s")], timeout=ctx.pick(1200, 3000))
@@ -87,15 +97,19 @@ def run(ctx):
 
 def judge(ctx, p, tr):
     st = json.loads(p.stdout.strip().splitlines()[-1])
-    ctx.cov["driver"] = {k: v for k, v in st.items() if k not in ("CutOutcomes", "PFOutcomes")}
+    ctx.cov["driver"] = {k: v for k, v in st.items() if k not in ("CutOutcomes", "PFOutcomes", "IdentOutcomes")}
     ctx.cov["cut_outcomes"] = st.get("CutOutcomes")
     ctx.cov["producer_failure_outcomes"] = st.get("PFOutcomes")
+    ctx.cov["identifier_shape_outcomes"] = st.get("IdentOutcomes")
     if st["BackupsOK"] < ctx.pick(40, 300) or st["WritesAcked"] < 300 or st["DistinctStates"] < 20:
         raise vlib.Undecided("backups under load did not run: %s" % ctx.cov["driver"])
     if st["CutFired"] < ctx.pick(200, 2000):
         raise vlib.Undecided("stream cuts did not run: %s" % ctx.cov["driver"])
     if st["PFCases"] < 24 or st["PFFired"] < st["PFCases"]:
         raise vlib.Undecided("producer failures were not injected in every case: %s" % ctx.cov["driver"])
+    if st["IdentShapes"] < ctx.pick(16, 36) or st["IdentBackupsOK"] < ctx.pick(150, 800) or not st["IdentOutcomes"].get("t-plain/c-plain/sql/ok"):
+        # an error is always allowed, but a shape phase in which (nearly) nothing succeeds has shown nothing
+        raise vlib.Undecided("backups of the identifier shapes did not run: %s" % ctx.cov["driver"])
     if st["WitnessPaused"] < 4:
         raise vlib.Undecided("the paused-copy witnesses did not run: %s" % ctx.cov["driver"])
     if min(st["ByVia"].get(v, 0) for v in ("leader", "follower", "local")) < 10:
@@ -125,7 +139,8 @@ def judge(ctx, p, tr):
     def key(bad, name):
         ev = bad.get("ev")
         if ev == "bk":
-            return "backup:%s:fmt=%s:vacuum=%s:compress=%s:via=%s" % (name, bad.get("fmt"), b(bad.get("vacuum")), b(bad.get("compress")), bad.get("via"))
+            k = "backup:%s:fmt=%s:vacuum=%s:compress=%s:via=%s" % (name, bad.get("fmt"), b(bad.get("vacuum")), b(bad.get("compress")), bad.get("via"))
+            return k + ":ident=" + bad["ident"] if bad.get("ident") else k
         if ev == "ref":
             return "backup:%s:fmt=%s:vacuum=false:compress=%s:via=follower" % (name, bad.get("fmt"), b(bad.get("compress")))
         if ev == "cut":
@@ -144,17 +159,30 @@ def judge(ctx, p, tr):
         if r2["accepted"] or [n for _, n in r2["bads"]] != ["success-although-producer-failed"]:
             raise vlib.Undecided("binding self-test failed: TraceBackup accepted a producer failure answered as a backup (%s)" % r2["bads"])
         ctx.cov.setdefault("binding_selftests", []).append({"module": "TraceBackup", "rule": "success-although-producer-failed", "rejected_corrupted_trace": True})
+        # binding of Complete's row rule: the first identifier-shape history with one SQL dump restored without the rows of t_z
+        first = next(i for i, x in enumerate(rows) if x.get("ev") == "reset" and x.get("phase") == "S")
+        nxt = next((i for i in range(first + 1, len(rows)) if rows[i].get("ev") == "reset"), len(rows))
+        sh = [dict(x) for x in rows[first:nxt]]
+        victim = next(x for x in sh if x.get("ev") == "bk" and x.get("fmt") == "sql" and x.get("status") == 200 and x.get("restored"))
+        victim.update(nz=0, sz=0)
+        p3 = tr + ".ident-corrupt"
+        vlib.write_nd(p3, sh)
+        r3 = twice(vlib.tlc_trace, ctx, "TraceBackup", "TraceBackup.cfg", p3, timeout=900)
+        if r3["accepted"] or [n for _, n in r3["bads"]] != ["incomplete"]:
+            raise vlib.Undecided("binding self-test failed: TraceBackup accepted a dump without the rows of a table (%s)" % r3["bads"])
+        ctx.cov["binding_selftests"].append({"module": "TraceBackup", "rule": "incomplete (rows of a table missing)", "rejected_corrupted_trace": True})
     nbk = sum(1 for r in rows if r.get("ev") in ("bk", "ref"))
     ncut = sum(1 for r in rows if r.get("ev") == "cut")
     npf = sum(1 for r in rows if r.get("ev") == "pf")
     ctx.add("traces_validated_against_impl", nbk + ncut + npf)
     ctx.cov["producer_failures_validated"] = npf
+    ctx.cov["identifier_shape_backups_validated"] = sum(1 for r in rows if r.get("ev") == "bk" and r.get("phase") == "S")
     ctx.cov["backups_validated"] = nbk
     ctx.cov["cuts_validated"] = ncut
     ctx.cov["history_states"] = sum(1 for r in rows if r.get("ev") in ("init", "w"))
     combos = {}
     for r in rows:
-        if r.get("ev") == "bk":
+        if r.get("ev") == "bk" and r.get("phase") != "S":
             k = "%s%s%s/%s" % (r["fmt"], "+vacuum" if r["vacuum"] else "", "+compress" if r["compress"] else "", r["via"])
             c = combos.setdefault(k, {"ok": 0, "error": 0})
             c["ok" if r["status"] == 200 and r["clean"] else "error"] += 1
@@ -162,7 +190,8 @@ def judge(ctx, p, tr):
     if len(combos) < 24 or sum(1 for c in combos.values() if c["ok"] > 0) < 22:
         # overlapping binary backups refuse each other (gate held): with few rounds a combination may have had no success
         raise vlib.Undecided("not every format/flag/via combination produced a backup: %s" % combos)
-    bks = [r for r in rows if r.get("ev") == "bk"]
+    bks = [r for r in rows if r.get("ev") == "bk" and r.get("phase") != "S"]
+    ctx.sample([r for r in rows if r.get("ev") == "bk" and r.get("phase") == "S" and r.get("cshape") == "dquote"][:2])
     ctx.sample(bks[7:11])
     ctx.sample([r for r in rows if r.get("ev") == "cut"][20:24])
     ctx.sample([r for r in rows if r.get("ev") == "w"][50:53])
@@ -172,6 +201,7 @@ def judge(ctx, p, tr):
     ctx.assumptions += [
         "window of a backup: start = DBAppliedIndex of the source node read before the request, end = its Raft commit index read after the response; if leadership moved during the request only the window-free rules (restorable, complete, equal to SOME state of the history) are applied",
         "a backup's content is compared through a projection (row counts, sums of every numeric column of the three tables, number of schema objects, integrity_check), not byte by byte",
+        "identifier shapes: one representative name per shape and role (e.g. dquote: x\"a, i\"d; keyword: group, order, select / primary, values, key, where, default, table; unicode: x\u00e9\u8868a), tables and an index; views, triggers and column shapes inside index expressions are not varied",
         "the stream cut is injected at the follower's end of the TCP connection (reads end with EOF / ECONNRESET after p bytes, the socket is then really closed, with linger 0 for RST)",
         "a failure of the producing node after streaming began is injected at two places only: the source file of the copy in Store.Backup is closed right before the copy (so the copy fails on its first read: nothing of the file is in the stream), and db.Dump returns an error at the k-th table (k = 1, 2, 3); a read error in the middle of the file copy and SQLite errors inside a dump query are not injected",
     ]
